@@ -725,12 +725,27 @@ theorem tables_agree :
 
 /-! ## What is NOT proved (kept visible)
 
-`C13_full` would say: for the real process, every API call is a function of its arguments up to
-the renaming class — including hash randomisation, import-time side effects and `uuid4`
-entropy.  Those are runtime facts outside any Lean model; they are carried by the differential
-runs of `harness/props/c13.py`.  What is stated here is the part a model can carry: IF every
-piece of cross-call state is (i) the logging stacks, (ii) the id source and (iii) per-object
-scratch attributes, THEN a call's result is independent of the history. -/
+The property is about the REAL process: every API call answers as a function of its arguments, up
+to the renaming class, whatever the process did before — including hash randomisation, import-time
+side effects and `uuid4` entropy.  Those are runtime facts no Lean model exhibits.  `C13_full` is
+that statement as a predicate of an arbitrary process (state space `S`, transition `api`); it is
+proved below for the MODEL process, whose cross-call state is exactly {logging stacks, id counter}
+(`C13_model_partial`).  That the real process has no other cross-call state is what the
+global-state audit and the history differential of `harness/props/c13.py` decide per explored
+history. -/
+
+/-- a process answers history-free: the observation of a call after any history of other calls is
+equivalent to its observation in the initial state -/
+def C13_full {S Call Out : Type} (api : Call → S → Out × S) (init : S) (eqv : Out → Out → Prop) : Prop :=
+  ∀ (hist : List Call) (c : Call),
+    eqv (api c (hist.foldl (fun s h => (api h s).2) init)).1 (api c init).1
+
+/-- not a triviality: a process that caches its first argument in a global is not history-free -/
+theorem C13_full_fails_for_a_cache :
+    ¬ C13_full (fun (c : Nat) (s : Option Nat) => (s.getD c, some (s.getD c))) none Eq := by
+  intro h
+  have := h [1] 2
+  simp at this
 
 /-- abstract process state: logger, id counter -/
 structure Proc where
@@ -742,7 +757,10 @@ structure Call where
   prog : Prog
   shape : Shape
 
-def Call.run (f : Nat → Str) (c : Call) (p : Proc) : (Except Err Unit × Tree Str × List (List Str × Str)) × Proc :=
+/-- observation of a call: outcome, output tree, records emitted (with processing stacks) -/
+abbrev Obs := Except Err Unit × Tree Str × List (List Str × Str)
+
+def Call.run (f : Nat → Str) (c : Call) (p : Proc) : Obs × Proc :=
   let r := exec c.prog p.log
   let t := fillWith f c.shape p.ctr
   ((r.1, t.1, (r.2.seen).drop p.log.seen.length), ⟨r.2, t.2⟩)
@@ -750,11 +768,8 @@ def Call.run (f : Nat → Str) (c : Call) (p : Proc) : (Except Err Unit × Tree 
 def runCalls (f : Nat → Str) (cs : List Call) (p : Proc) : Proc :=
   cs.foldl (fun s c => (c.run f s).2) p
 
-def C13_full : Prop :=
-  ∀ (f : Nat → Str), Injective f → ∀ (hist : List Call) (c : Call) (p : Proc),
-    let fresh := (c.run f p).1
-    let used := (c.run f (runCalls f hist p)).1
-    used.1 = fresh.1 ∧ used.2.2 = fresh.2.2 ∧ canon used.2.1 = canon fresh.2.1
+/-- same outcome, same records, outputs in the same renaming class (equal canonical forms) -/
+def ObsEquiv (a b : Obs) : Prop := a.1 = b.1 ∧ a.2.2 = b.2.2 ∧ canon a.2.1 = canon b.2.1
 
 theorem runCalls_log_stack (f : Nat → Str) (hist : List Call) (p : Proc) :
     (runCalls f hist p).log.stack = p.log.stack := by
@@ -782,18 +797,21 @@ theorem canon_fillWith_any (f : Nat → Str) (hf : Injective f) (s : Shape) (c :
   rw [h1]
   exact canon_run_independent _ (shift_injective f hf c) s
 
-/-- the modelled part of C13, for ALL histories, calls and injective id sources: what the observed
-call raises, the records it logs (with their processing stacks) and its output up to the renaming
-of invented ids are the same in a used process as in a fresh one.  `_partial`: the model's notion
-of "process state" is exactly {logging stacks, id counter}; that the real process has no other
-cross-call state is what the global-state audit and the history differential decide. -/
-theorem C13_model_partial : C13_full := by
-  intro f hf hist c p
-  have hs := runCalls_log_stack f hist p
+/-- the modelled part of C13, for ALL histories, calls, initial states and injective id sources:
+what the observed call raises, the records it logs (with their processing stacks) and its output up
+to the renaming of invented ids are the same in a used process as in a fresh one. -/
+theorem C13_model_partial (f : Nat → Str) (hf : Injective f) (p : Proc) :
+    C13_full (fun c s => Call.run f c s) p ObsEquiv := by
+  intro hist c
+  have hs : (runCalls f hist p).log.stack = p.log.stack := runCalls_log_stack f hist p
+  show ObsEquiv (c.run f (runCalls f hist p)).1 (c.run f p).1
   refine ⟨?_, ?_, ?_⟩
   · simp [Call.run, exec_den, hs]
   · simp [Call.run, exec_den, hs]
   · simp only [Call.run]
     rw [canon_fillWith_any f hf, canon_fillWith_any f hf]
+
+example : C13_full (fun c s => Call.run (fun k => List.replicate k 'a') c s) ⟨LState.empty, 0⟩ ObsEquiv :=
+  C13_model_partial _ (by intro a b h; simpa using congrArg List.length h) _
 
 end Rpft.Props.C13
